@@ -81,6 +81,75 @@ fn phase_a_one(ll: &LongLived, s: &str, other: &str, rec: &mut Rec) {
     }
 }
 
+/// Phase A2: results handed on. The string one profile has just produced is given to another profile as the very
+/// next call on this thread; the same call is repeated after unrelated calls and on a helper thread (other
+/// thread-local state). All three must agree: a "last result" memo that forgets what produced it shows here.
+const NCP_CHUNKS: usize = 0x110000 / 0x1000;
+
+type HelperLink = (std::sync::mpsc::Sender<(Prof, String)>, std::sync::mpsc::Receiver<api::R>);
+thread_local! {
+    /// one helper thread per worker thread: it only ever runs the repeated calls of phase A2, so its thread-local
+    /// state has another history than the worker's (it ends when the worker's sender is dropped)
+    static HELPER: std::cell::RefCell<Option<HelperLink>> = const { std::cell::RefCell::new(None) };
+}
+
+fn on_helper_thread(q: Prof, o: &str) -> api::R {
+    HELPER.with(|h| {
+        let mut h = h.borrow_mut();
+        if h.is_none() {
+            let (tx, rx) = std::sync::mpsc::channel::<(Prof, String)>();
+            let (tx2, rx2) = std::sync::mpsc::channel::<api::R>();
+            std::thread::spawn(move || {
+                while let Ok((q, o)) = rx.recv() {
+                    if tx2.send(api::enforce(q, &o)).is_err() {
+                        break;
+                    }
+                }
+            });
+            *h = Some((tx, rx2));
+        }
+        let (tx, rx) = h.as_ref().unwrap();
+        if tx.send((q, o.to_string())).is_err() {
+            return Out::Panic("helper thread gone".into());
+        }
+        rx.recv().unwrap_or(Out::Panic("helper thread gone".into()))
+    })
+}
+
+fn phase_a_chain(s: &str, rec: &mut Rec) {
+    for p in ALL_PROF {
+        let o = match api::enforce(p, s) {
+            Out::Ok(o) if o != s => o,
+            _ => continue,
+        };
+        for q in ALL_PROF {
+            if q == p {
+                continue;
+            }
+            let _ = api::enforce(p, s);
+            let r1 = api::enforce(q, &o);
+            let _ = api::enforce(crate::api::Prof::Opaque, "e\u{301}\u{FB01}");
+            let _ = api::enforce(crate::api::Prof::Nick, "\u{FF21}\u{30A} \u{2163}");
+            let r2 = api::enforce(q, &o);
+            // (the helper round trip costs a context switch: one chain in four)
+            let r3 = if (o.len() + s.len()) % 4 == 0 { on_helper_thread(q, &o) } else { r2.clone() };
+            rec.evals(3);
+            rec.count("chained:result-of-one-profile-enforced-by-another");
+            if r1 != r2 || r1 != r3 {
+                rec.violation(
+                    "result-depends-on-call-history",
+                    Witness {
+                        op: format!("{}::enforce of the string {}::enforce has just produced / after unrelated calls / on another thread", q.name(), p.name()),
+                        case: format!("profile={};op=chain;via={};label={}", q.name(), p.name(), util::esc(s)),
+                        expected: "three equal results".into(),
+                        observed: format!("{} / {} / {}", api::show(&r1), api::show(&r2), api::show(&r3)),
+                    },
+                );
+            }
+        }
+    }
+}
+
 struct Case {
     op: &'static str,
     profile: &'static str,
@@ -415,10 +484,28 @@ pub fn run(env: &Env) -> Rec {
         for j in 0..per {
             let s = inputs_for(env, &mut rng, j);
             phase_a_one(&ll, &s, &prev, rec);
+            if j % 4 == 0 {
+                phase_a_chain(&s, rec);
+            }
             prev = s;
         }
     });
     rec.merge(ra);
+    // chained results for every scalar value that some profile's enforce changes (c alone and after a letter that
+    // is not NFC-stable with a following mark)
+    let rc = par(NCP_CHUNKS, |i, rec| {
+        let mut s = String::new();
+        for cp in (i * 0x1000) as u32..((i + 1) * 0x1000) as u32 {
+            if let Some(c) = char::from_u32(cp) {
+                s.clear();
+                s.push(c);
+                phase_a_chain(&s, rec);
+                s.push_str("ance\u{301}");
+                phase_a_chain(&s, rec);
+            }
+        }
+    });
+    rec.merge(rc);
     let n_long = env.n(1_500, 60_000);
     let per = 100usize;
     let ra2 = par(n_long.div_ceil(per), |c, rec| {
@@ -446,6 +533,7 @@ pub fn replay(_env: &Env, _op: &str, case: &str) -> Rec {
         Some(s) => {
             let other = super::kv_get(case, "other").and_then(util::unesc).unwrap_or_default();
             phase_a_one(&ll, &s, &other, &mut rec);
+            phase_a_chain(&s, &mut rec);
         }
         None => rec.note("HARNESS-ERROR: history/schedule witnesses are replayed by re-running the check with the recorded seed"),
     }
